@@ -158,13 +158,21 @@ LostLive(hs, pre, e) ==
 
 GoodPair(hs, k, v) == hs.last[k].p /\ ~hs.last[k].dead /\ v = hs.last[k].v
 
+\* An iterator that stays alive while the clock moves is recorded as an Advance event that carries
+\* what was yielded before the step (head, at the event's reading) and after it (tail, d later).
+IsSplitIter(e) == e.ev = "Advance" /\ HasF(e, "head")
+SplitItems(e) == e.head \o e.tail
+KeysOf(items) == {items[i].k : i \in DOMAIN items}
+
 Allowed_C01(hs, pre, e) ==
     CASE e.ev = "Get" -> e.r = None \/ GoodPair(hs, e.k, e.r)
       [] e.ev = "Contains" -> e.r = FALSE \/ (hs.last[e.k].p /\ ~hs.last[e.k].dead)
       [] e.ev = "Iter" -> /\ NoDup([i \in DOMAIN e.items |-> e.items[i].k])
                           /\ \A i \in DOMAIN e.items : GoodPair(hs, e.items[i].k, e.items[i].v)
+      [] IsSplitIter(e) -> /\ NoDup([i \in DOMAIN SplitItems(e) |-> SplitItems(e)[i].k])
+                           /\ \A i \in DOMAIN SplitItems(e) : GoodPair(hs, SplitItems(e)[i].k, SplitItems(e)[i].v)
       [] OTHER -> TRUE
-NT_C01(hs, pre, e) == IsLookupHit(e) \/ (e.ev = "Iter" /\ e.items # <<>>)
+NT_C01(hs, pre, e) == IsLookupHit(e) \/ (e.ev = "Iter" /\ e.items # <<>>) \/ (IsSplitIter(e) /\ SplitItems(e) # <<>>)
                       \/ (e.ev \in {"Get", "Contains"} /\ hs.last[e.k].p)
 
 (* C05  time to live                                                         *)
@@ -174,15 +182,23 @@ HitKeys(e) == CASE e.ev = "Get" /\ e.r # None -> {e.k}
                 [] OTHER -> {}
 
 Allowed_C05(hs, pre, e) ==
-    hs.cfg.ttl = None \/ \A k \in HitKeys(e) : hs.last[k].p => e.now < hs.last[k].t + hs.cfg.ttl
+    hs.cfg.ttl = None \/
+       /\ \A k \in HitKeys(e) : hs.last[k].p => e.now < hs.last[k].t + hs.cfg.ttl
+       /\ IsSplitIter(e) =>
+             /\ \A k \in KeysOf(e.head) : hs.last[k].p => e.now < hs.last[k].t + hs.cfg.ttl
+             /\ \A k \in KeysOf(e.tail) : hs.last[k].p => e.now + e.d < hs.last[k].t + hs.cfg.ttl
 NT_C05(hs, pre, e) == hs.cfg.ttl # None /\
-    ((e.ev \in {"Get", "Contains"} /\ hs.last[e.k].p /\ ~hs.last[e.k].dead) \/ e.ev = "Iter")
+    ((e.ev \in {"Get", "Contains"} /\ hs.last[e.k].p /\ ~hs.last[e.k].dead) \/ e.ev = "Iter" \/ IsSplitIter(e))
 
 (* C06  time to idle                                                         *)
 Allowed_C06(hs, pre, e) ==
-    hs.cfg.tti = None \/ \A k \in HitKeys(e) : hs.last[k].p => e.now < hs.last[k].acc + hs.cfg.tti
+    hs.cfg.tti = None \/
+       /\ \A k \in HitKeys(e) : hs.last[k].p => e.now < hs.last[k].acc + hs.cfg.tti
+       /\ IsSplitIter(e) =>
+             /\ \A k \in KeysOf(e.head) : hs.last[k].p => e.now < hs.last[k].acc + hs.cfg.tti
+             /\ \A k \in KeysOf(e.tail) : hs.last[k].p => e.now + e.d < hs.last[k].acc + hs.cfg.tti
 NT_C06(hs, pre, e) == hs.cfg.tti # None /\
-    ((e.ev \in {"Get", "Contains"} /\ hs.last[e.k].p /\ ~hs.last[e.k].dead) \/ e.ev = "Iter")
+    ((e.ev \in {"Get", "Contains"} /\ hs.last[e.k].p /\ ~hs.last[e.k].dead) \/ e.ev = "Iter" \/ IsSplitIter(e))
 
 -----------------------------------------------------------------------------
 (* C03  no spurious loss                                                     *)
@@ -258,6 +274,7 @@ Allowed_C07(hs, pre, e) ==
     /\ (e.ev = "Get" /\ hs.last[e.k].p /\ hs.last[e.k].dead) => e.r = None
     /\ (e.ev = "Contains" /\ hs.last[e.k].p /\ hs.last[e.k].dead) => e.r = FALSE
     /\ e.ev = "Iter" => \A i \in DOMAIN e.items : ~(hs.last[e.items[i].k].p /\ hs.last[e.items[i].k].dead)
+    /\ IsSplitIter(e) => \A k \in KeysOf(SplitItems(e)) : ~(hs.last[k].p /\ hs.last[k].dead)
     /\ (e.ev = "Contains" /\ hs.inv.on /\ hs.inv.now = e.now) =>
           /\ e.k \in hs.inv.targeted => e.r = FALSE
           /\ (hs.inv.settled /\ e.k \notin hs.inv.targeted \cup hs.inv.amb /\ e.k \in hs.inv.pre) => e.r = TRUE
@@ -492,11 +509,18 @@ NT_C15(hs, pre, e) == e.ev \in {"Contains", "Iter"} /\ pre.res # <<>>
 (* C16  iteration yields every live entry exactly once                       *)
 
 Allowed_C16(hs, pre, e) ==
-    e.ev = "Iter" =>
+    /\ e.ev = "Iter" =>
       /\ NoDup([i \in DOMAIN e.items |-> e.items[i].k])
       /\ \A k \in KeysIn(pre.res) : RefLive(hs, k, e.now) => \E i \in DOMAIN e.items : e.items[i].k = k
       /\ \A i \in DOMAIN e.items : RefMaybe(hs, e.items[i].k, e.now) /\ e.items[i].v = hs.last[e.items[i].k].v
-NT_C16(hs, pre, e) == e.ev = "Iter" /\ (e.items # <<>> \/ pre.res # <<>>)
+    \* an iterator alive across a clock step: no key twice, everything that is surely live also after
+    \* the step is yielded, and nothing is yielded at a reading at which it cannot be live
+    /\ IsSplitIter(e) =>
+      /\ NoDup([i \in DOMAIN SplitItems(e) |-> SplitItems(e)[i].k])
+      /\ \A k \in KeysIn(pre.res) : RefLive(hs, k, e.now + e.d) => k \in KeysOf(SplitItems(e))
+      /\ \A i \in DOMAIN e.head : RefMaybe(hs, e.head[i].k, e.now) /\ e.head[i].v = hs.last[e.head[i].k].v
+      /\ \A i \in DOMAIN e.tail : RefMaybe(hs, e.tail[i].k, e.now + e.d) /\ e.tail[i].v = hs.last[e.tail[i].k].v
+NT_C16(hs, pre, e) == (e.ev = "Iter" /\ (e.items # <<>> \/ pre.res # <<>>)) \/ (IsSplitIter(e) /\ pre.res # <<>>)
 
 -----------------------------------------------------------------------------
 (* The summary update                                                        *)
